@@ -259,7 +259,7 @@ func (c *Ctx) ResponseHeaderSchema(pos string) *Schema {
 	p := c.prim("rh_prim")
 	s := p.Schema()
 	c.Tag("rheader:" + p.Name)
-	if rapid.IntRange(0, 3).Draw(t, "rh_ref") == 0 && c.AllowSchema(s, "component") {
+	if !c.Lean && rapid.IntRange(0, 3).Draw(t, "rh_ref") == 0 && c.AllowSchema(s, "component") {
 		r := c.AddSchema(c.CompName("Hdr", "rh"), s)
 		if c.AllowSchema(r, pos) {
 			s = r
@@ -284,8 +284,23 @@ func (c *Ctx) Response(rich bool) *Response {
 	}
 	switch rapid.IntRange(0, 4).Draw(t, "resp_body") {
 	case 0, 1:
-		r.Content = JSONContent(c.BodySchema("respbody"))
+		if c.Lean {
+			// flat inline bodies only: nothing here becomes a schema component
+			if rapid.Bool().Draw(t, "lean_object") {
+				r.Content = JSONContent(&Schema{Type: "object", Properties: map[string]*Schema{c.PlainName("p", "leanprop"): {Type: "string"}, c.PlainName("q", "leanprop"): {Type: "integer"}}})
+			} else {
+				r.Content = JSONContent(&Schema{Type: rapid.SampledFrom([]string{"string", "integer", "boolean"}).Draw(t, "lean_prim")})
+			}
+		} else {
+			r.Content = JSONContent(c.BodySchema("respbody"))
+		}
 		c.Tag("resp:json")
+		// further media types beside application/json (own schemas): the JSON one stays the typed body
+		if rapid.IntRange(0, 3).Draw(t, "extra_media_type") == 0 && c.Allow("resp:extra-media-type") {
+			mt := rapid.SampledFrom([]string{"application/problem+json", "application/vnd.x+json", "application/hal+json", "text/plain", "application/xml"}).Draw(t, "extra_mt")
+			r.Content[mt] = &MediaType{Schema: &Schema{Type: "object", Properties: map[string]*Schema{"title": {Type: "string"}, "type": {Type: "string"}}, Required: []string{"title", "type"}}}
+			c.Tag("resp:extra-media-type")
+		}
 	case 2:
 		mt := rapid.SampledFrom([]string{"application/octet-stream", "application/octet-stream", "text/plain", "application/xml", "image/png", "application/json-patch+json", "application/jsonlines", "text/csv; charset=utf-8"}).Draw(t, "raw_media_type")
 		r.Content = map[string]*MediaType{mt: {Schema: &Schema{Type: "string", Format: "binary"}}}
@@ -306,7 +321,7 @@ func (c *Ctx) Response(rich bool) *Response {
 		case 1:
 			name = "X-RH" + strings.ToUpper(c.PlainName("id", "rhupper"))[0:2] + c.PlainName("k", "rhk")
 		}
-		asComponent := rapid.IntRange(0, 3).Draw(t, "rh_component") == 0 && c.Allow("header-component")
+		asComponent := !c.Lean && rapid.IntRange(0, 3).Draw(t, "rh_component") == 0 && c.Allow("header-component")
 		pos := "response-header"
 		if asComponent {
 			pos = "component-header"
@@ -679,6 +694,10 @@ func (c *Ctx) ParamsDoc(withPathVars bool, withBodies ...bool) *Doc {
 				}
 			}
 		}
+		// a trailing slash on the template is significant (for the client's URL too)
+		if rapid.IntRange(0, 3).Draw(t, "trailing_slash") == 0 {
+			segs = append(segs, "")
+		}
 		pi := &PathItem{}
 		d.Paths["/"+strings.Join(segs, "/")] = pi
 		mkParam := func(in string, level string) *Parameter {
@@ -926,6 +945,11 @@ func (c *Ctx) ResponsesDoc() *Doc {
 	// a few component schemas for bodies (sometimes none: shared responses may be the
 	// only components of a spec)
 	ns := rapid.IntRange(0, 4).Draw(t, "nschemas")
+	if rapid.IntRange(0, 4).Draw(t, "lean") == 0 {
+		// shared responses are the only components of the whole spec
+		c.Lean, ns = true, 0
+		c.Tag("responses:only-components")
+	}
 	for i := 0; i < ns; i++ {
 		c.AddSchema(c.CompName("Sch", "schema"), c.Schema(2, "component"))
 	}
